@@ -18,7 +18,7 @@ ASSUMPTIONS = ['unit norm within 1e-9 for quaternions, SO(3) membership within 1
                'acc and mag at least 1 degree from parallel, all samples non-zero (as in the statement)',
                'bounded to histories of length <= 3 over the 26 lattice directions / 6 poses; magnitudes 1e-3 ... 1e3',
                'default magnetic references are never used: every estimator gets an explicit dip / reference']
-REQUIRED_CLASSES = ['float32', 'rate-ladder', 'containers', 'single-frame', 'recursive', 'pose:level', 'pose:inverted', 'pose:vertical', 'history:jump']
+REQUIRED_CLASSES = ['float32', 'rate-ladder', 'containers', 'apriori-containers', 'single-frame', 'recursive', 'pose:level', 'pose:inverted', 'pose:vertical', 'history:jump']
 MAG_Q = [(9.81, 45.0), (1.0, 1.0)]
 MAG_T = [(sa, sm) for sa in (1e-3, 9.81, 1e3) for sm in (1e-3, 45.0, 1e3)]
 GYR = [np.array([0.01, -0.02, 0.03]), np.array([1.0, -2.0, 0.5]), np.array([0.0, 0.0, 1e-3])]
@@ -316,6 +316,53 @@ def job_gyro_ladder(ctx, key, ci):
                     ctx.fail(f'{key}: streaming update raises with {cn} samples', k, f'{type(ex).__name__}: {ex}'[:120], 'valid attitudes')
                 ctx.seen((key, ci, 'container', cn, pz))
             ctx.cls('containers')
+    # the a-priori / initial attitude in other containers and numeric types (values unchanged): integer spellings of exact versors,
+    # single precision, lists, tuples, ahrs.Quaternion objects -- streaming a-priori and the batch constructor's q0
+    from ahrs import Quaternion as _Q
+    exact = [np.array([1.0, 0.0, 0.0, 0.0]), np.array([0.0, 1.0, 0.0, 0.0]), np.array([0.0, 0.0, 0.0, -1.0])]
+    generic = [rq.qunit(np.array([0.6, 0.2, -0.7, 0.3]))]
+    qcar = [('int list', lambda v: [int(x) for x in v], True), ('int64 array', lambda v: v.astype(np.int64), True), ('float32 array', lambda v: v.astype(np.float32), False),
+            ('list', lambda v: [float(x) for x in v], False), ('tuple', lambda v: tuple(float(x) for x in v), False), ('Quaternion object', lambda v: _Q(v.copy()), False),
+            ('Quaternion.copy()', lambda v: _Q(v.copy()).copy(), False)]
+    a3 = np.tile(P6[4][0] * 9.81, (3, 1)); m3 = np.tile(P6[4][1] * 45.0, (3, 1)); g3 = np.tile(GYR[1], (3, 1))
+    for qv in (exact + generic if not key.startswith('UKF') else []):      # (UKF: a start far from the sensed attitude runs into its recorded Cholesky finding)
+        is_exact = bool(np.array_equal(qv, np.rint(qv)))
+        for cn, conv, need_exact in qcar:
+            if need_exact and not is_exact:
+                continue
+            k = f'filter={key} cfg#{ci} a-priori={qv.tolist()} as {cn}'
+            if r.step_fn is not None:
+                ctx.evals += 1
+                try:
+                    np.random.seed(1)
+                    inst = r.fresh(cfg)
+                    q = r.step_fn(inst, conv(qv), GYR[1].copy(), a3[0].copy(), m3[0].copy() if r.has_mag else None)
+                    q2 = r.step_fn(inst, q, GYR[1].copy(), a3[0].copy(), m3[0].copy() if r.has_mag else None)
+                    ok, why = _valid_rows(np.array([np.array(q, float), np.array(q2, float)]), 'q', 2, tol=1e-5 if cn.startswith('float32') else 1e-9)
+                    if not ok:
+                        ctx.fail(f'{key}: streaming update with the a-priori in another container returns valid attitudes', k, why, 'finite real unit rows')
+                except (TypeError, AttributeError):
+                    ctx.outcome(('apriori-refused', key, cn))
+                except Exception as ex:
+                    ctx.fail(f'{key}: streaming update raises for an a-priori in another container', k, f'{type(ex).__name__}: {ex}'[:120], 'valid attitudes')
+            if r.q0_key == 'q0':
+                ctx.evals += 1
+                try:
+                    np.random.seed(1)
+                    kw = dict(cfg); kw['q0'] = conv(qv)
+                    inst = r.klass()(**r.batch_args(g3.copy(), a3.copy(), m3.copy() if r.has_mag else None), **kw)
+                    out = np.asarray(r.output(inst))
+                    ok, why = _valid_rows(out, 'q', 3, tol=1e-5 if cn.startswith('float32') else 1e-9)
+                    if ok and out.dtype != np.float64:
+                        ok, why = False, f'dtype {out.dtype}'
+                    if not ok:
+                        ctx.fail(f'{key}: batch run with q0 in another container / numeric type returns valid float64 attitudes', k, why, 'finite real unit float64 rows')
+                except (TypeError, AttributeError):
+                    ctx.outcome(('q0-refused', key, cn))
+                except Exception as ex:
+                    ctx.fail(f'{key}: batch run raises for q0 in another container / numeric type', k, f'{type(ex).__name__}: {ex}'[:120], 'valid attitudes')
+            ctx.seen((key, ci, 'apriori', cn, tuple(qv)))
+    ctx.cls('apriori-containers')
     ctx.states += len(GYR_LADDER) * 9
     ctx.traces += ctx.evals
     ctx.sample({'filter': key, 'rates': GYR_LADDER, 'containers': [c[0] for c in CONTAINERS]})
